@@ -112,6 +112,13 @@ async def server_side(net, hyg, plan):
         if plan["hostile"]:
             p = RawPeer(net, 2121, name="hostile")
             try:
+                if plan["seed"] % 4 == 3:
+                    # the first hostile bytes are already there when the server accepts the connection
+                    early = rng.choice([mutate(rng, rng.choice(VALID_CMDS)) + b"\r\n", b"\r\n", b"\xff\xfe\r\n", b"USER anonymous\r\nPASV\r\nLIST\r\n",
+                                        b"A" * 70000, b"QUIT\r\n" * 3])
+                    sent.append(early[:60])
+                    mon["hostile_lines"] += 1
+                    net.next_conn_early_data = early
                 await p.connect()
                 r0 = rng.random()
                 if r0 < 0.5:
